@@ -68,9 +68,27 @@ def rule_run(chk, r):
     need(main, 'C08.b: run() has no `while … running …: tick()` loop')
     lp = main[0]
     tsrc = src(lp.ast.test)
-    cond_ok = isinstance(lp.ast.test, ast.BoolOp) and isinstance(lp.ast.test.op, ast.Or) and \
-        any(src(v) in ('self.running', 'self._running') for v in lp.ast.test.values) and \
-        any(src(v) in ('len(self._queue)', 'self._queue', 'len(self)') for v in lp.ast.test.values)
+    # read off the CFG (independent of how the condition is spelled): the loop is left only on an edge path on which the running flag is false
+    # AND the queue is empty; both atoms are the only tests of the condition
+    cond_ids = {id(x) for x in ast.walk(lp.ast.test)}
+    atoms = [n for n in g.nodes if n.kind == 'test' and id(n.ast) in cond_ids]
+    run_atoms = [n for n in atoms if src(n.ast) in ('self.running', 'self._running')]
+    q_atoms = [n for n in atoms if src(n.ast) in ('len(self._queue)', 'self._queue', 'len(self)') or
+               pat.fact_matches(pat.compare_fact(n.ast, 'T'), 'len(self._queue)', ('>', '!='), '0')]
+    first_after = [e.dst for n in atoms for e in n.succ if e.kind in ('T', 'F') and ('loop', lp.ast) not in e.dst.ctx and e.dst not in atoms]
+    body_entry = [e.dst for n in atoms for e in n.succ if e.kind in ('T', 'F') and ('loop', lp.ast) in e.dst.ctx and e.dst not in atoms]
+    cond_ok = bool(run_atoms) and bool(q_atoms) and len(atoms) == len(run_atoms) + len(q_atoms)
+    if cond_ok:
+        # leaving the loop needs the false edge of a running atom and the false edge of a queue atom
+        for ex_ in first_after:
+            p1 = Q.reachable_without(g, ex_, start=lp, avoid_edge=lambda e: e.src in run_atoms and e.kind == 'F', avoid_node=lambda n: ('loop', lp.ast) in n.ctx)
+            p2 = Q.reachable_without(g, ex_, start=lp, avoid_edge=lambda e: e.src in q_atoms and e.kind == 'F', avoid_node=lambda n: ('loop', lp.ast) in n.ctx)
+            cond_ok = cond_ok and p1 is None and p2 is None
+        # and each atom being true enters the body
+        for n in atoms:
+            for e in n.succ:
+                if e.kind == 'T':
+                    cond_ok = cond_ok and (e.dst in body_entry or ('loop', lp.ast) in e.dst.ctx)
     chk.ob('b', r.ref, 'the loop continues while running or while events are queued', cond_ok, loc(r, lp.ast), detail=f'`while {tsrc}`',
            discr='loop-condition')
     p = Q.reachable_without(g, lp, avoid_node=lambda n: n is st)
